@@ -621,19 +621,19 @@ static int mps_read_col_line (
 	more = (EGLPNUM_TYPENAME_ILLmps_next_field (state) == 0);
 	if (!more)
 	{
-		return EGLPNUM_TYPENAME_ILLmps_error (state, "Missing fields in COLUMNS record.\n");
+		{ EGLPNUM_TYPENAME_EGlpNumClearVar (ncoef); return EGLPNUM_TYPENAME_ILLmps_error (state, "Missing fields in COLUMNS record.\n"); }
 	}
 	for (more = 1; more; more = (EGLPNUM_TYPENAME_ILLmps_next_field (state) == 0))
 	{
 		hit = ILLsymboltab_lookup (&lp->rowtab, state->field, &rowind);
 		if (hit)
 		{
-			return EGLPNUM_TYPENAME_ILLmps_error (state, "\"%s\" is not a row name.\n", state->field);
+			{ EGLPNUM_TYPENAME_EGlpNumClearVar (ncoef); return EGLPNUM_TYPENAME_ILLmps_error (state, "\"%s\" is not a row name.\n", state->field); }
 		}
 		if (EGLPNUM_TYPENAME_ILLmps_next_coef (state, &ncoef) != 0)
 		{
-			return EGLPNUM_TYPENAME_ILLmps_error (state,
-													 "Missing/Bad coefficient in COLUMNS record.\n");
+			{ EGLPNUM_TYPENAME_EGlpNumClearVar (ncoef); return EGLPNUM_TYPENAME_ILLmps_error (state,
+													 "Missing/Bad coefficient in COLUMNS record.\n"); }
 		}
 		rval = EGLPNUM_TYPENAME_ILLraw_add_col_coef (lp, colind, rowind, ncoef);
 	}
@@ -734,24 +734,24 @@ static int add_rhs (
 			/* field is non blank rhs name; advance to row name  */
 			if (EGLPNUM_TYPENAME_ILLmps_next_field (state))
 			{
-				return EGLPNUM_TYPENAME_ILLmps_error (state, "Missing row name in RHS record.\n");
+				{ EGLPNUM_TYPENAME_EGlpNumClearVar (rhs); return EGLPNUM_TYPENAME_ILLmps_error (state, "Missing row name in RHS record.\n"); }
 			}
 		}
 		for (more_fields = 1; more_fields; more_fields = !EGLPNUM_TYPENAME_ILLmps_next_field (state))
 		{
 			if (ILLsymboltab_lookup (&lp->rowtab, state->field, &rowind))
 			{
-				return EGLPNUM_TYPENAME_ILLmps_error (state, "\"%s\" is not a row name.\n",
-														 state->field);
+				{ EGLPNUM_TYPENAME_EGlpNumClearVar (rhs); return EGLPNUM_TYPENAME_ILLmps_error (state, "\"%s\" is not a row name.\n",
+														 state->field); }
 			}
 			if (EGLPNUM_TYPENAME_ILLmps_next_coef (state, &rhs))
 			{
-				return EGLPNUM_TYPENAME_ILLmps_error (state, "Missing/Bad coefficient in RHS record.\n");
+				{ EGLPNUM_TYPENAME_EGlpNumClearVar (rhs); return EGLPNUM_TYPENAME_ILLmps_error (state, "Missing/Bad coefficient in RHS record.\n"); }
 			}
 			if (lp->rhsind[rowind])
 			{
-				return EGLPNUM_TYPENAME_ILLmps_error (state, "Two rhs values for row \"%s\".\n",
-														 state->field);
+				{ EGLPNUM_TYPENAME_EGlpNumClearVar (rhs); return EGLPNUM_TYPENAME_ILLmps_error (state, "Two rhs values for row \"%s\".\n",
+														 state->field); }
 			}
 			else
 			{
@@ -789,24 +789,24 @@ static int add_bounds (
 
 	if (ILLutil_index (mps_bound_name, state->field) < 0)
 	{
-		return EGLPNUM_TYPENAME_ILLmps_error (state, "\"%s\" is not a BOUNDS type.\n", state->field);
+		{ EGLPNUM_TYPENAME_EGlpNumClearVar (bnd); return EGLPNUM_TYPENAME_ILLmps_error (state, "\"%s\" is not a BOUNDS type.\n", state->field); }
 	}
 	strcpy (bndtype, state->field);
 
 	if (EGLPNUM_TYPENAME_ILLmps_next_field (state) != 0)
 	{
-		return EGLPNUM_TYPENAME_ILLmps_error (state,
-												 "No bounds/column identifier in BOUNDS record.\n");
+		{ EGLPNUM_TYPENAME_EGlpNumClearVar (bnd); return EGLPNUM_TYPENAME_ILLmps_error (state,
+												 "No bounds/column identifier in BOUNDS record.\n"); }
 	}
 
 	bounds_name = EGLPNUM_TYPENAME_ILLmps_possibly_blank_name (state->field, state, &lp->coltab);
 	if (bounds_name == NULL)
 	{
-		return 1;
+		{ EGLPNUM_TYPENAME_EGlpNumClearVar (bnd); return 1; }
 	}
 	if (EGLPNUM_TYPENAME_ILLraw_set_bounds_name (lp, bounds_name, &skip))
 	{
-		return 1;
+		{ EGLPNUM_TYPENAME_EGlpNumClearVar (bnd); return 1; }
 	}
 	if (skip)
 	{
@@ -819,13 +819,13 @@ static int add_bounds (
 			/* non empty bounds_name ==> advance to col name field */
 			if (EGLPNUM_TYPENAME_ILLmps_next_field (state))
 			{
-				return EGLPNUM_TYPENAME_ILLmps_error (state, "Missing column field in BOUNDS record.\n");
+				{ EGLPNUM_TYPENAME_EGlpNumClearVar (bnd); return EGLPNUM_TYPENAME_ILLmps_error (state, "Missing column field in BOUNDS record.\n"); }
 			}
 		}
 		if (ILLsymboltab_lookup (&lp->coltab, state->field, &colind))
 		{
-			return EGLPNUM_TYPENAME_ILLmps_error (state, "\"%s\" is not a column name.\n",
-													 state->field);
+			{ EGLPNUM_TYPENAME_EGlpNumClearVar (bnd); return EGLPNUM_TYPENAME_ILLmps_error (state, "\"%s\" is not a column name.\n",
+													 state->field); }
 		}
 		EGLPNUM_TYPENAME_EGlpNumZero (bnd);
 		if (strcmp (bndtype, "FR") && strcmp (bndtype, "BV") &&
@@ -834,8 +834,8 @@ static int add_bounds (
 			/* neither "FR", "BV", "MI" nor "PL" ==> there should be a bound */
 			if (EGLPNUM_TYPENAME_ILLmps_next_bound (state, &bnd))
 			{
-				return EGLPNUM_TYPENAME_ILLmps_error (state,
-														 "Missing/Bad bound field in BOUNDS record.\n");
+				{ EGLPNUM_TYPENAME_EGlpNumClearVar (bnd); return EGLPNUM_TYPENAME_ILLmps_error (state,
+														 "Missing/Bad bound field in BOUNDS record.\n"); }
 			}
 		}
 		mps_set_bound (lp, state, colind, bndtype, bnd);
@@ -925,7 +925,7 @@ static int add_ranges (
 	rangesname = EGLPNUM_TYPENAME_ILLmps_possibly_blank_name (state->field, state, &lp->rowtab);
 	if (EGLPNUM_TYPENAME_ILLraw_set_ranges_name (lp, rangesname, &skip))
 	{
-		return EGLPNUM_TYPENAME_ILLmps_error (state, "Could not add range.\n");
+		{ EGLPNUM_TYPENAME_EGlpNumClearVar (ntmp); return EGLPNUM_TYPENAME_ILLmps_error (state, "Could not add range.\n"); }
 	}
 	if (skip)
 	{
@@ -938,20 +938,20 @@ static int add_ranges (
 			/* field is non blank ranges name; advance to row name */
 			if (EGLPNUM_TYPENAME_ILLmps_next_field (state))
 			{
-				return EGLPNUM_TYPENAME_ILLmps_error (state, "Missing row name in RANGES record.");
+				{ EGLPNUM_TYPENAME_EGlpNumClearVar (ntmp); return EGLPNUM_TYPENAME_ILLmps_error (state, "Missing row name in RANGES record."); }
 			}
 		}
 		for (more_fields = 1; more_fields; more_fields = !EGLPNUM_TYPENAME_ILLmps_next_field (state))
 		{
 			if (ILLsymboltab_lookup (&lp->rowtab, state->field, &rowind))
 			{
-				return EGLPNUM_TYPENAME_ILLmps_error (state, "\"%s\" is not a row name.\n",
-														 state->field);
+				{ EGLPNUM_TYPENAME_EGlpNumClearVar (ntmp); return EGLPNUM_TYPENAME_ILLmps_error (state, "\"%s\" is not a row name.\n",
+														 state->field); }
 			}
 			if (EGLPNUM_TYPENAME_ILLmps_next_coef (state, &ntmp))
 			{
-				return EGLPNUM_TYPENAME_ILLmps_error (state,
-														 "Missing/Bad coefficient in RANGES record.\n");
+				{ EGLPNUM_TYPENAME_EGlpNumClearVar (ntmp); return EGLPNUM_TYPENAME_ILLmps_error (state,
+														 "Missing/Bad coefficient in RANGES record.\n"); }
 			}
 			if (lp->rangesind[rowind])
 			{
@@ -963,7 +963,7 @@ static int add_ranges (
 				if (lp->rowsense[rowind] != 'N')
 				{
 					if (EGLPNUM_TYPENAME_ILLraw_add_ranges_coef (lp, rowind, ntmp))
-						return 1;
+						{ EGLPNUM_TYPENAME_EGlpNumClearVar (ntmp); return 1; }
 				}
 				else
 				{
@@ -1034,8 +1034,8 @@ static int mps_fill_in (
 		hit = ILLsymboltab_lookup (&lp->rowtab, lp->refrow, &lp->refrowind);
 		if (hit)
 		{
-			return EGLPNUM_TYPENAME_ILLdata_error (lp->error_collector,
-														"REFROW \"%s\" is not a row name.\n", lp->refrow);
+			{ EGLPNUM_TYPENAME_EGlpNumClearVar (weight); return EGLPNUM_TYPENAME_ILLdata_error (lp->error_collector,
+														"REFROW \"%s\" is not a row name.\n", lp->refrow); }
 		}
 		for (i = 0; i < lp->nsos_member; i++)
 		{
